@@ -19,9 +19,20 @@ TiesInit ==
     /\ t = s /\ mp = 0 /\ i = 0 /\ f = F0
 TiesSpec == TiesInit /\ [][Next]_vars /\ WF_vars(Next)
 
+\* float series holding infinities: no fold machine (its power sums would leave TLC's integers), the
+\* definitions and their laws only
+InfElemDef == {NINFA, 0 - 1, 0, 2, PINFA, NULL}
+InfInit == /\ s \in Seqs(InfElemDef, MaxLen) /\ t = s /\ mp = 0 /\ i = 0 /\ f = F0
+InfSpec == InfInit /\ [][UNCHANGED vars]_vars
+InfLawsInv == InfLaws(s)
+EmitInf ==
+    PrintT(<<"REPLAY", ToJson([op |-> "agg_inf", s |-> s, pinf |-> PINFA, ninf |-> NINFA,
+                               exp |-> [k \in InfAggKeys |-> InfAggOf(k, s)]])>>)
+
 Emit1 ==
     (Done /\ ~Pairs) =>
-      PrintT(<<"REPLAY", ToJson([op |-> "agg", s |-> s, mp |-> mp, exp |-> [
+      PrintT(<<"REPLAY", ToJson([op |-> "agg", s |-> s, mp |-> mp,
+          calls |-> FoldCalls(s), nadd |-> NAddFold(s), nprod |-> NProdFold(s), exp |-> [
           count_valid |-> EInt(CountValid), count_none |-> EInt(CountNone),
           vfirst |-> EOpt(FirstValid), vlast |-> EOpt(LastValid),
           vany |-> EInt(IF AnyTrue THEN 1 ELSE 0), vall |-> EInt(IF AllTrue THEN 1 ELSE 0),
@@ -33,7 +44,7 @@ Emit1 ==
 
 Emit2 ==
     (Done /\ Pairs) =>
-      PrintT(<<"REPLAY", ToJson([op |-> "agg2", s |-> s, t |-> t, mp |-> mp, exp |-> [
+      PrintT(<<"REPLAY", ToJson([op |-> "agg2", s |-> s, t |-> t, mp |-> mp, calls2 |-> Fold2Calls(s, t), exp |-> [
           vcov |-> DefVCov, vcorr |-> DefVCorr,
           mask_n |-> EInt(DefMaskCount), mask_sum_raw |-> EInt(DefMaskSumRaw),
           mask_sum |-> DefMaskSum, mask_mean |-> DefMaskMean]])>>)
